@@ -112,7 +112,7 @@ def rl_cell(cell):
             vs.append(("rl-sampler-outside-set", f"samplers used {obs['samplers']}"))
         # stronger than the injection: executed agent-chosen batches equal the agent's choices in order (none skipped)
         pols = [e[1] for e in obs["log"] if e[0] == "policy"]
-        ran = [s for s in obs["samplers"][1:] if not isinstance(s, tuple)]
+        ran = [s for s in obs["samplers"] if not isinstance(s, tuple)][1:]
         if not vs and ran != pols[:len(ran)]:
             vs.append(("rl-choice-skipped", f"batches ran {ran} but the agent chose {pols}"))
         outs.add(tuple(map(repr, obs["samplers"])))
@@ -213,6 +213,15 @@ def main(ctx):
                     if (ai + len(shape)) % 3 != ("mixed", "to_zero", "never").index(losses) and ctx.quick:
                         continue
                     cells.append({"kind": "rl", "bound": 1, "cfg": {"shape": shape, "losses": losses, "l0": l0, "agent": agent, "samplers": samplers}})
+    # a failing batch under the RL scheduler, then further sessions: the retry and every later batch still follow the agent's choices
+    for samplers in ("with_halton", "three"):
+        for shape in ([2, 2], [3, 2]) if ctx.quick else ([2, 2], [3, 2], [1, 3], [2, 2, 2]):
+            for si in range(len(shape) - 1):
+                for bi in range(shape[si]):
+                    for where in ("before_get", "after_get"):
+                        for script in ([1, 0, 0, 1], [0, 1], [2, 1, 0]):
+                            cells.append({"kind": "rl", "cfg": {"shape": shape, "losses": "mixed", "l0": 10.0, "agent": {"kind": "scripted", "script": script}, "samplers": samplers,
+                                                                 "fault": {"session": si, "batch": bi, "where": where}}})
     ctx.bounds = {"round_robin": f"line-ups of 1..6 objects over {NAMES6} (in order, reversed, repeated class), batch sizes 1..3 by position; histories over c1,c2,restore of depth {depth}",
                   "rl": {"sampler_sets": ["with_halton", "halton_first", "without_halton", "three"], "shapes": shapes, "agents": "all scripted sequences of length <= 3 + eps-greedy eps {0,.5,1} seeds {S,S+1}",
                          "loss_scripts": ["mixed", "to_zero (best loss becomes exactly 0)", "never with bootstrap loss 0"], "schedules": "all interleavings modulo independence (sleep sets)"}, "cells": len(cells)}
